@@ -171,22 +171,30 @@ Qed.
 Lemma topic_check_values t : topic_check t = Ok 0 \/ topic_check t = Raise 1.
 Proof. rewrite topic_check_spec. case_if; [left|right]; reflexivity. Qed.
 
-Lemma publish_check_spec v t q k n :
-  publish_args_check v t q k n =
-  if spec_publish_ok v t q k n then Ok 0
+Lemma publish_remaining_length_spec v t q n pl :
+  publish_remaining_length v t q n pl = spec_publish_remaining_length v t q n pl.
+Proof.
+  unfold publish_remaining_length, spec_publish_remaining_length, blen.
+  destruct (q >? 0) eqn:E1; destruct (1 <=? q) eqn:E2; destruct (is_v5 v); lia.
+Qed.
+
+Lemma publish_check_spec v t q k n pl :
+  publish_args_check v t q k n pl =
+  if spec_publish_ok v t q k n pl then Ok 0
   else if spec_topic_ok v t && spec_qos_ok q && negb (spec_payload_type_ok k) then Raise 2
   else Raise 1.
 Proof.
   unfold publish_args_check, spec_publish_ok, spec_topic_ok, spec_qos_ok.
-  rewrite topic_check_spec, blen_zero_nat.
+  rewrite topic_check_spec, blen_zero_nat, publish_remaining_length_spec.
   assert (Hq : (q <? 0) || (q >? 2) = negb ((0 <=? q) && (q <=? 2))) by lia.
   rewrite Hq.
-  assert (Hn : (n >? 268435455) = negb (n <=? 268435455)) by lia.
+  assert (Hn : (spec_publish_remaining_length v t q n pl >? 268435455)
+               = negb (spec_publish_remaining_length v t q n pl <=? 268435455)) by lia.
   rewrite Hn.
   assert (Hk : payload_supported k = spec_payload_type_ok k) by (destruct k; reflexivity).
   rewrite Hk.
   destruct (is_v5 v), (Nat.eqb (length t) 0), (negb (mem 43 t) && negb (mem 35 t) && (Z.of_nat (length t) <=? 65535)),
-    ((0 <=? q) && (q <=? 2)), (spec_payload_type_ok k), (n <=? 268435455); reflexivity.
+    ((0 <=? q) && (q <=? 2)), (spec_payload_type_ok k), (spec_publish_remaining_length v t q n pl <=? 268435455); reflexivity.
 Qed.
 
 Lemma spec_topic_ok_false v t : spec_topic_ok v t = false <-> topic_bad v t.
@@ -198,8 +206,8 @@ Proof.
   { apply has_byte_In in E35. cbn [negb andb]. split; auto. }
   apply has_byte_notIn in E43, E35. cbn [negb andb].
   destruct (Z.of_nat (length t) <=? 65535) eqn:El; cbn [andb].
-  2:{ split; [intros _|reflexivity]. right; right; right. unfold blen. lia. }
-  assert (Hl : ~ 65535 < blen t) by (unfold blen; lia).
+  2:{ split; [intros _|reflexivity]. right; right; right. lia. }
+  assert (Hl : ~ 65535 < Z.of_nat (length t)) by lia.
   destruct t as [|c t'].
   - destruct v; cbn [is_v5 orb length Nat.eqb negb].
     + split; [intros _|reflexivity]. right; right; left. split; [discriminate|reflexivity].
@@ -215,29 +223,55 @@ Proof.
 Qed.
 
 (* C19.2 *)
-Lemma publish_rejects v t q k n :
-  (publish_args_check v t q k n = Raise ValueError <->
-     topic_bad v t \/ q < 0 \/ 2 < q \/ (payload_supported k = true /\ 268435455 < n))
-  /\ (publish_args_check v t q k n = Raise TypeError <->
+Lemma publish_rejects v t q k n pl :
+  (publish_args_check v t q k n pl = Raise ValueError <->
+     topic_bad v t \/ q < 0 \/ 2 < q \/
+     (payload_supported k = true /\ 268435455 < spec_publish_remaining_length v t q n pl))
+  /\ (publish_args_check v t q k n pl = Raise TypeError <->
      ~ topic_bad v t /\ 0 <= q <= 2 /\ k = POther)
-  /\ (publish_args_check v t q k n = Ok 0 <->
-     ~ topic_bad v t /\ 0 <= q <= 2 /\ k <> POther /\ n <= 268435455).
+  /\ (publish_args_check v t q k n pl = Ok 0 <->
+     ~ topic_bad v t /\ 0 <= q <= 2 /\ k <> POther /\ spec_publish_remaining_length v t q n pl <= 268435455).
 Proof.
   rewrite publish_check_spec. unfold spec_publish_ok, spec_qos_ok, ValueError, TypeError.
   destruct (spec_topic_ok v t) eqn:Et;
     [apply spec_topic_ok_true in Et|apply spec_topic_ok_false in Et];
     destruct ((0 <=? q) && (q <=? 2)) eqn:Eq;
-    destruct (n <=? 268435455) eqn:En;
+    destruct (spec_publish_remaining_length v t q n pl <=? 268435455) eqn:En;
     destruct k; cbn [andb negb spec_payload_type_ok payload_supported];
     (split; [|split]; split; intros HH; try discriminate HH; try reflexivity;
      intuition (try lia; try congruence; try discriminate)).
 Qed.
 
-Lemma publish_accepts_documented v t q k n :
-  publish_args_check v t q k n = Ok 0 <-> spec_publish_ok v t q k n = true.
+Lemma publish_accepts_documented v t q k n pl :
+  publish_args_check v t q k n pl = Ok 0 <-> spec_publish_ok v t q k n pl = true.
 Proof.
-  rewrite publish_check_spec. destruct (spec_publish_ok v t q k n); [split; reflexivity|].
+  rewrite publish_check_spec. destruct (spec_publish_ok v t q k n pl); [split; reflexivity|].
   case_if; split; discriminate.
+Qed.
+
+(* every payload over 268,435,455 bytes is rejected with ValueError, whatever else is passed
+   (TypeError is impossible: the payload has a length) *)
+Lemma publish_payload_over_limit v t q k n pl :
+  payload_supported k = true -> 0 <= pl -> 268435455 < n ->
+  publish_args_check v t q k n pl = Raise ValueError.
+Proof.
+  intros Hk Hpl Hn. apply (proj1 (publish_rejects v t q k n pl)).
+  destruct (Z_lt_dec q 0) as [Hq|Hq]; [right; left; assumption|].
+  right; right; right. split; [assumption|].
+  unfold spec_publish_remaining_length.
+  destruct (1 <=? q); destruct (is_v5 v); lia.
+Qed.
+
+(* conversely a payload is refused for its size only when the packet would not fit: with a valid
+   topic, QoS and payload type, anything up to 268435455 - 2 - len(topic) - 2 - proplen is accepted *)
+Lemma publish_payload_fits v t q k n pl :
+  ~ topic_bad v t -> 0 <= q <= 2 -> k <> POther ->
+  n + Z.of_nat (length t) + (if is_v5 v then pl else 0) <= 268435451 ->
+  publish_args_check v t q k n pl = Ok 0.
+Proof.
+  intros Ht Hq Hk Hn. apply (proj2 (proj2 (publish_rejects v t q k n pl))).
+  repeat split; try assumption; try lia.
+  unfold spec_publish_remaining_length. destruct (1 <=? q); destruct (is_v5 v); lia.
 Qed.
 
 (* ------------------------------------------------------------------ subscribe() *)
@@ -493,9 +527,79 @@ Proof.
     + split; [reflexivity|]. intros _. destruct (blen s =? 0); eexists; reflexivity.
     + split; [reflexivity|]. intros _. eexists; reflexivity.
     + split; [reflexivity|]. intros _. eexists; reflexivity.
-  - cbn [unsubscribe_norm unsub_documented_ok]. pose proof (unsub_elems_char l) as H.
-    destruct (unsub_elems l) as [ss|k|].
+  - destruct l as [|i l]; [cbn; split; [reflexivity|intros _; exists 1; reflexivity]|].
+    change (unsubscribe_norm (UList (i :: l))) with (unsub_elems (i :: l)).
+    unfold unsub_documented_ok. change (Nat.eqb (length (i :: l)) 0) with false. cbn [negb andb].
+    pose proof (unsub_elems_char (i :: l)) as H.
+    destruct (unsub_elems (i :: l)) as [ss|k|].
     + destruct H as [H _]. split; [intros [k Hk]; discriminate|congruence].
     + split; [intros _; assumption|intros _; exists k; reflexivity].
     + contradiction.
+Qed.
+
+(* ------------------------------------------------------------------ subscribe(): total packet size *)
+
+Lemma sub_rl_fold (l : list (filter * opts)) : forall a,
+  fold_left (fun acc (p : filter * opts) => acc + (2 + blen (fst p) + 1)) l a
+  = a + spec_subscribe_payload_length l.
+Proof.
+  induction l as [|p l IH]; intros a; cbn [fold_left spec_subscribe_payload_length]; [lia|].
+  rewrite IH. unfold blen. lia.
+Qed.
+
+Lemma subscribe_remaining_length_spec v pl l :
+  subscribe_remaining_length v pl l = spec_subscribe_remaining_length v pl l.
+Proof. exact (sub_rl_fold l _). Qed.
+
+(* on a connected client: rejected exactly when undocumented, or when the SUBSCRIBE packet cannot
+   be represented at all *)
+Lemma subscribe_connected_exact v pl a :
+  (exists k, subscribe_connected v pl a = Raise k) <->
+  documented_ok v a = false \/
+  268435455 < spec_subscribe_remaining_length v pl (documented_request v a).
+Proof.
+  unfold subscribe_connected. pose proof (subscribe_norm_char v a) as H.
+  destruct (subscribe_norm v a) as [l|k|]; [|destruct H as [H _]|contradiction].
+  - destruct H as [Hd ->]. rewrite subscribe_remaining_length_spec.
+    destruct (spec_subscribe_remaining_length v pl (documented_request v a) >? 268435455) eqn:E; split.
+    + intros _. right. lia.
+    + intros _. exists 1. reflexivity.
+    + intros [k Hk]. discriminate.
+    + intros [Hc|Hc]; [congruence|lia].
+  - split; [intros _; left; assumption|intros _; exists k; reflexivity].
+Qed.
+
+Lemma subscribe_connected_valueerror v pl a :
+  documented_shape v a = true ->
+  (exists k, subscribe_connected v pl a = Raise k) -> subscribe_connected v pl a = Raise ValueError.
+Proof.
+  unfold subscribe_connected. intros Hs. pose proof (subscribe_norm_char v a) as H.
+  destruct (subscribe_norm v a) as [l|k|]; [|destruct H as [_ H]|contradiction].
+  - destruct (subscribe_remaining_length v pl l >? 268435455); [reflexivity|intros [k Hk]; discriminate].
+  - intros _. rewrite (H Hs). reflexivity.
+Qed.
+
+(* the size limit is out of reach for ordinary requests: up to 4095 filters (each at most 65535
+   bytes, as the grammar demands) with at most 57343 bytes of properties always fit *)
+Lemma spec_subscribe_payload_bound l :
+  Forall (fun p => spec_filter_ok (fst p) = true) l ->
+  spec_subscribe_payload_length l <= 65538 * Z.of_nat (length l).
+Proof.
+  induction 1 as [|p l Hp Hl IH]; [cbn; lia|].
+  cbn [spec_subscribe_payload_length length].
+  apply spec_filter_ok_prop in Hp. destruct Hp as (_ & Hp & _). unfold filter, opts in *. lia.
+Qed.
+
+Lemma subscribe_connected_small_fits v pl a :
+  documented_ok v a = true -> Z.of_nat (length (documented_request v a)) <= 4095 -> pl <= 57343 ->
+  subscribe_connected v pl a = Ok (documented_request v a).
+Proof.
+  intros Hd Hn Hpl. unfold subscribe_connected.
+  pose proof (subscribe_accepts_only_valid v a (documented_request v a) (subscribe_result v a Hd)) as Hall.
+  rewrite (subscribe_result v a Hd), subscribe_remaining_length_spec.
+  pose proof (spec_subscribe_payload_bound _ Hall) as Hb.
+  unfold spec_subscribe_remaining_length.
+  assert (E : (2 + (if is_v5 v then pl else 0) + spec_subscribe_payload_length (documented_request v a) >? 268435455) = false).
+  { unfold filter, opts in *. destruct (is_v5 v); lia. }
+  rewrite E. reflexivity.
 Qed.
